@@ -81,6 +81,14 @@ class InElastic(_Simu):
         assert value >= 0.0, "dt must be >= 0"
         self.__dt = value
 
+    @_Simu.mesh.setter
+    def mesh(self, mesh: "Mesh") -> None:
+        _Simu.mesh.fset(self, mesh)
+        # the internal variables live on the Gauss points of the previous mesh: like the
+        # solution fields, they start from scratch on a new one
+        self.__z = {}
+        self.__zOld = {}
+
     @property
     def material(self) -> Behavior:
         """The material."""
